@@ -634,7 +634,14 @@ func rioDamage(c *Ctx, rc rioCase, tape *simrt.Tape, count bool) (vs []rioV, eva
 		// the same cut file consumed with a mix of ReadNext and SkipNext (the case's skip mask): every record that a
 		// read returns must be the one written at that position (skips move the position, they return nothing)
 		if rc.SkipMask != 0 {
-			if pos, got, ok := mixedPass(dmg, rc.ReadBuf, rc.SkipMask); ok {
+			pos, got, skipped, ok := mixedPass(dmg, rc.ReadBuf, rc.SkipMask)
+			for _, p := range skipped {
+				if p >= complete {
+					add("truncation|skip-accepted-incomplete-record", fmt.Sprintf("file cut to %d of %d bytes, read/skip mask %x: SkipNext reported success for record #%d, but only %d records are completely contained (reading that record fails)", L, len(orig), rc.SkipMask, p, complete))
+					return
+				}
+			}
+			if ok {
 				for j, b := range got {
 					p := pos[j]
 					if p >= len(live) || !sameRec(b, live[p]) {
@@ -857,7 +864,7 @@ func skipThenRead(path string, readBuf, n int) (after [][]byte, skipErr error, o
 
 // mixedPass consumes the file with SkipNext where the mask has a one bit at the record's position (mod 64) and ReadNext
 // elsewhere, until the first error or end of file. It returns the positions and payloads of the reads.
-func mixedPass(path string, readBuf int, mask uint64) (pos []int, got [][]byte, ok bool) {
+func mixedPass(path string, readBuf int, mask uint64) (pos []int, got [][]byte, skipped []int, ok bool) {
 	defer func() {
 		if r := recover(); r != nil {
 			ok = true
@@ -865,27 +872,28 @@ func mixedPass(path string, readBuf int, mask uint64) (pos []int, got [][]byte, 
 	}()
 	rd, err := recordio.NewFileReader(recordio.ReaderPath(path), recordio.ReaderBufferSizeBytes(readBuf))
 	if err != nil {
-		return nil, nil, false
+		return nil, nil, nil, false
 	}
 	defer rd.Close()
 	if err := rd.Open(); err != nil {
-		return nil, nil, false
+		return nil, nil, nil, false
 	}
 	for p := 0; p < 10000; p++ {
 		if mask&(1<<(uint(p)%64)) != 0 {
 			if err := rd.SkipNext(); err != nil {
-				return pos, got, true
+				return pos, got, skipped, true
 			}
+			skipped = append(skipped, p)
 			continue
 		}
 		b, err := rd.ReadNext()
 		if err != nil {
-			return pos, got, true
+			return pos, got, skipped, true
 		}
 		pos = append(pos, p)
 		got = append(got, b)
 	}
-	return pos, got, true
+	return pos, got, skipped, true
 }
 
 func rioRun(c *Ctx, rc rioCase, tape *simrt.Tape, count bool) ([]rioV, int) {
